@@ -451,7 +451,7 @@ let c04_clause_name = function
   | WEmptyName -> "member-without-a-name"
 
 let run_c04 ic =
-  let n = ref 0 and n_dis = ref 0 and n_fail = ref 0 and n_err = ref 0 in
+  let n = ref 0 and n_dis = ref 0 and n_fail = ref 0 and n_err = ref 0 and n_cpio = ref 0 in
   iter_cases ic (fun _ -> ()) (fun c ->
       incr n;
       let f = fmt_of_string c.format in
@@ -474,6 +474,21 @@ let run_c04 ic =
             | Ok cs -> List.map (fun (e : pentry) -> e.pe_path) (List.filter (fun (e : pentry) -> e.pe_inpayload) (payload_of f c.mtime cs))
                        = List.map (fun o -> explode o.o_path) (List.filter (fun o -> o.o_inpayload) c.pents)
             | Err _ -> false) in
+        (* the rpm payload container: the model's cpio reader finds the entries the harness's reader finds, and the
+           model's cpio writer reproduces the archive byte for byte from them (Properties/C04: C04_cpio_check_sound) *)
+        let cpio_notes = match List.assoc_opt "cpio" c.extra with
+          | None -> []
+          | Some t ->
+            incr n_cpio;
+            let s = explode (unhexs t.(1)) in
+            let rec int_of_nat = function O -> 0 | S n -> 1 + int_of_nat n in
+            let theirs = List.filter_map (fun (k, t) -> if k = "cpioent" then Some (unhexs t.(1), int_of_string t.(2), int_of_string t.(3), t.(4)) else None) c.extra in
+            let ours = match cpio_read s with
+              | None -> None
+              | Some l -> Some (List.map (fun ((nm, md), d) -> (implode nm, int_of_nat md, List.length d, Digest.to_hex (Digest.string (implode d)))) l) in
+            (if ours = Some theirs then [] else ["cpio: the container model's reader and the harness's reader find different entries"])
+            @ (if cpio_reencodes s then [] else ["cpio: the container model's writer does not reproduce the payload archive from its entries"]) in
+        let agree = agree && cpio_notes = [] in
         if not agree then incr n_dis;
         if clauses <> [] then incr n_fail;
         (* known finding: apk / archlinux write the root directory under the empty name - and nothing else is wrong *)
@@ -483,8 +498,8 @@ let run_c04 ic =
           then ["root-directory-member-without-name"] else [] in
         if clauses <> [] || not agree then
           report ~kf c.id agree (List.sort_uniq compare (List.map c04_clause_name clauses)) []
-            (List.map (fun (k, _) -> "structure fact false: " ^ k) bad @ (if install_ok then [] else [".INSTALL presence does not match configured scripts"])));
-  Printf.printf "SUMMARY cases=%d disagreements=%d impl_failures=%d impl_errors=%d\n" !n !n_dis !n_fail !n_err
+            (cpio_notes @ List.map (fun (k, _) -> "structure fact false: " ^ k) bad @ (if install_ok then [] else [".INSTALL presence does not match configured scripts"])));
+  Printf.printf "SUMMARY cases=%d disagreements=%d impl_failures=%d impl_errors=%d cpio_archives_reencoded=%d\n" !n !n_dis !n_fail !n_err !n_cpio
 
 (* ---------- C02 ---------- *)
 let group_lists (l : (string * string) list) : (char list * char list list) list =
